@@ -77,6 +77,10 @@ class Analysis:
         g = generic_name(f.name)
         if g in ROLES:
             return ROLES[g]
+        if f.short == 'init' and 'olc_inode' in f.cls:
+            pn = {p['name'] for p in f.params}
+            if 'source_node_guard' in pn and 'source_node' in pn:
+                return [('WGd', 'source_node_guard', ('n', 'source_node'))]
         if f.short in ROLES and '::iterator' in f.cls and 'olc_db' in f.cls:
             rs = ROLES[f.short]
             pn = {p['name'] for p in f.params}
@@ -85,7 +89,7 @@ class Analysis:
 
     @staticmethod
     def _role_params(r):
-        if r[0] == 'G':
+        if r[0] in ('G', 'WGd'):
             return [r[1], r[2][1]]
         if r[0] == 'GIR':
             return [r[1], r[2]]
